@@ -173,6 +173,9 @@ def verify_function(c, rep, tier='quick', timeout_ms=8000, bound=3):
                 out.append(rep.add(Ob(name, 'P', 'ok', be, dt, function=qn)))
             else:
                 pending.append((ob, name, st, be, dt, det))
+        bonly = getattr(c, 'bounded_only', ())
+        if pending and bonly:
+            pending = bounded_discharge(c, fn, pending, bonly, bound, out, rep, qn)
         if pending:
             wit = bounded_counterexample(c, fn, {base_name(p[0].name) for p in pending}, bound)
             for ob, name, st, be, dt, det in pending:
@@ -197,6 +200,38 @@ def verify_function(c, rep, tier='quick', timeout_ms=8000, bound=3):
     # run-time evaluation of the same contract on concrete states (bounded stand-in / cross-check)
     out += runtime_contract(c, rep, tier, all_proved=obs is not None and all(o.status == 'ok' for o in out))
     return out
+
+
+def bounded_discharge(c, fn, pending, bonly, bound, out, rep, qn):
+    """Obligations the contract marks `bounded_only` (counting / pigeonhole arguments no SMT solver does
+    unprompted) are decided on the finite instance: every container of the entry state has length <= bound and
+    quantifiers are expanded; the query is quantifier-free.  They are labelled S, never P."""
+    rest = []
+    todo = [p for p in pending if base_name(p[0].name) in bonly]
+    rest = [p for p in pending if base_name(p[0].name) not in bonly]
+    if not todo: return pending
+    try:
+        with S.bounded_mode(bound):
+            ex = E.Exec(c, fn); obs = ex.run(); limits = ex.size_constraints(bound)
+        byname = {}
+        for ob in obs: byname.setdefault(ob.name, []).append(ob)
+        for (ob, name, st, be, dt, det) in todo:
+            cands = byname.get(ob.name, [])
+            t = time.time(); ok = bool(cands); why = ''
+            for b in cands:
+                s_ = z3.Solver(); s_.set('timeout', 20000)
+                s_.add(*b.hyps); s_.add(*limits); s_.add(z3.Not(b.goal))
+                r = s_.check()
+                if r != z3.unsat:
+                    ok = False; why = 'bounded instance: %s' % r; break
+            if ok:
+                out.append(rep.add(Ob(name, 'S', 'ok', 'z3-bounded', time.time() - t,
+                                      'decided on the finite instance only: all containers of length <= %d, quantifier-free' % bound, function=qn)))
+            else:
+                rest.append((ob, name, st, be, dt, det + ' | ' + why))
+    except Undecided as u:
+        rest += todo
+    return rest
 
 
 def bounded_counterexample(c, fn, wanted, bound):
